@@ -349,6 +349,25 @@ def name_clashes(ctx, work):
         if err is not None and (out / ".zmetadata").exists():
             ctx.violate(f"{cat} key '{name}': rejected but a finished store exists", inp, "no output", "store")
         shutil.rmtree(out, ignore_errors=True)
+        if must and name != "length":      # (`length` is not on the clobber lists: it is caught when encode creates the array, C13_clobber_lists)
+            # the same input through the distributed commands: it must be refused before an intermediate store presents as complete
+            icf = pathlib.Path(work) / f"nc_{cat}_{name}.icf"
+            shutil.rmtree(icf, ignore_errors=True)
+            try:
+                s_ = vcf2zarr.explode_init(icf, [p], target_num_partitions=2, worker_processes=0)
+                for j in range(s_.num_partitions):
+                    vcf2zarr.explode_partition(icf, j)
+                vcf2zarr.explode_finalise(icf)
+            except Exception:  # noqa: BLE001
+                pass
+            try:
+                vcf2zarr.IntermediateColumnarFormat(icf)
+                ctx.violate(f"{cat} key '{name}' collides with a reserved array, yet explode_init/partition/finalise produced an "
+                            f"intermediate store that loads as finished", {**inp, "workflow": "distributed explode"}, "refused", "ICF loads")
+            except Exception:  # noqa: BLE001
+                pass
+            ctx.count("name_clash_distributed")
+            shutil.rmtree(icf, ignore_errors=True)
 
 
 def undeclared_filter(ctx, work, k):
